@@ -45,7 +45,10 @@ def eq_union(yastn, a, b):
         return f"meta fusion differs: {a.mfs} vs {b.mfs}"
     if a.isdiag != b.isdiag:
         return f"isdiag {a.isdiag} vs {b.isdiag}"
-    la, lb = a.get_legs(native=True), b.get_legs(native=True)
+    try:
+        la, lb = a.get_legs(native=True), b.get_legs(native=True)
+    except Exception as e:  # noqa: BLE001   (a result whose own legs cannot be listed is malformed)
+        return f"get_legs of a result raises {type(e).__name__}: {e}"
     if len(la) != len(lb):
         return f"native rank {len(la)} vs {len(lb)}"
     if tuple(l.s for l in la) != tuple(l.s for l in lb):
